@@ -302,10 +302,15 @@ def index_tokens(ix):
     return ["a", cu.nv(ix[1])]
 
 
+NP_INTS = {"int64": np.int64, "int32": np.int32, "intp": np.intp, "int16": np.int16, "uint8": np.uint8}
+
+
 def py_index(ix):
     if ix[0] == "m":
         return np.array([bool(b) for b in ix[1]], dtype=bool)
     if ix[0] == "i":
+        if len(ix) > 2 and ix[2] in NP_INTS and not (ix[2] == "uint8" and ix[1] < 0):
+            return NP_INTS[ix[2]](ix[1])      # a NumPy integer scalar (np.arange / np.argmax give these): same as the int
         return int(ix[1])
     if ix[0] == "s":
         return slice(*ix[1:])
@@ -357,6 +362,8 @@ def rand_oint(rng, lo=-3, hi=3):
 def rand_index(rng: Rng, n):
     c = rng.random()
     if c < 0.3:
+        if rng.random() < 0.45:
+            return ["i", rng.randint(-n - 1, n), rng.choice(list(NP_INTS))]
         return ["i", rng.randint(-n - 1, n)]
     if c < 0.7:
         return ["s", rand_oint(rng, -n - 1, n + 1), rand_oint(rng, -n - 1, n + 1), rng.choice([None, None, 1, 2, 3, -1, -2, -3, 0])]
@@ -435,6 +442,23 @@ def gen_cat(rng: Rng):
         yield dict(kind="cat", base=base, how=how, tree=tree)
 
 
+def gen_cat_permuted(rng: Rng):
+    """A subset taken with an UNSORTED index array, cut into consecutive pieces (or kept whole) and
+    concatenated: the observations must come back in the order of the pieces (by position)."""
+    n = rng.randint(3, 6)
+    base = rand_obj(rng, n, rng.choice(["I", "I", "I", "M"]))
+    k = rng.randint(2, n)
+    perm = rng.sample(range(n), k)
+    if perm == sorted(perm):
+        perm = perm[::-1]
+    sub = _select_desc(base, ["a", perm])
+    cuts = partition_slices(rng, k) if rng.random() < 0.75 else [["s", None, None, None]]
+    pieces = [_select_desc(sub, c) for c in cuts]
+    leaves = [["L", p] for p in pieces]
+    for tree in groupings(leaves)[:2]:
+        yield dict(kind="cat", base=base, how="permuted", tree=tree, perm=perm)
+
+
 def _compositions(n, kmin=3):
     def rec(rest):
         if rest == 0:
@@ -502,6 +526,7 @@ def _gen_cases(rng: Rng, tier):
                 o = rand_obj(rng, n, kind)
                 for i in range(-n - 1, n + 1):
                     yield dict(kind="get", obj=o, ix=["i", i])
+                    yield dict(kind="get", obj=o, ix=["i", i, rng.choice(list(NP_INTS))])
                 vals = [None, -3, -2, -1, 0, 1, 2, 3]
                 for a in vals:
                     for b in vals:
@@ -513,6 +538,12 @@ def _gen_cases(rng: Rng, tier):
     for _ in range(4000 if big else 320):
         o = rand_obj(rng)
         yield dict(kind="get", obj=o, ix=rand_index(rng, obj_nobs(o)))
+    # NumPy integer scalars as indices, every data class
+    for kind in ("D", "I", "B", "M"):
+        for _ in range(12 if big else 4):
+            o = rand_obj(rng, rng.randint(1, 5), kind)
+            n = obj_nobs(o)
+            yield dict(kind="get", obj=o, ix=["i", rng.randint(-n, n - 1), rng.choice(["int64", "int32", "intp"])])
     # boolean masks (NumPy semantics on dense / basis data; irregular data read them as 0 / 1: mirrored only)
     for _ in range(600 if big else 70):
         o = rand_obj(rng, None, rng.choice(["D", "D", "B", "I", "M"]))
@@ -540,6 +571,8 @@ def _gen_cases(rng: Rng, tier):
         yield from gen_cat(rng)
     for _ in range(400 if big else 45):
         yield from gen_cat_fresh(rng)
+    for _ in range(400 if big else 50):
+        yield from gen_cat_permuted(rng)
     if big:
         for n in range(3, 7):
             for comp in _compositions(n):
@@ -754,6 +787,9 @@ def _methods(x):
         "covariance": lambda o: o.covariance(),
         "getitem0": lambda o: o[0],
         "getitem-1": lambda o: o[-1],
+        "getitem(np.int64)": lambda o: o[np.int64(0)],
+        "getitem(arange loop)": lambda o: [o[i] for i in np.arange(o.n_obs)],
+        "getitem(np.argmax)": lambda o: o[np.argmax(np.arange(o.n_obs))],
         "getitem[::-1]": lambda o: o[::-1],
         "iter": lambda o: [p for p in o],
         "concat(x,x)": lambda o: type(o).concatenate(o, o),
@@ -942,6 +978,18 @@ def _spec_concat(leaves):
     return "M " + ("|".join(parts) if parts else "-")
 
 
+def _ids_by_position(s):
+    """`U I:3/10,1/11` / `M D:1,2|I:0/5` -> per component the row identifiers in order."""
+    body = s.split(" ", 1)[1] if " " in s else ""
+    out = []
+    for c in body.split("|"):
+        if ":" not in c:
+            continue
+        ent = c.split(":", 1)[1]
+        out.append([] if ent == "-" else [int(e.split("/")[-1]) for e in ent.split(",")])
+    return out
+
+
 def _noncanonical(leaves):
     for l in leaves:
         comps = [l[1]] if l[0] == "U" else l[1]
@@ -1039,6 +1087,14 @@ def oracle(case, impl):
                            msg=f"concatenating {[obj_str(l) for l in leaves]} ({case['how']}) gave {got}; the pieces in order, labelled as a fresh dataset, are {want}"))
         if impl["err"] is None and impl["bad"]:
             vs.append(dict(clause="concat_own_points", entry=entry, causes=causes, msg="; ".join(impl["bad"][:3])))
+        if impl["err"] is None and want is not None:
+            # content IN ORDER, by position (labels aside): judged whenever no observation was lost, so that it
+            # stays clear of the label collisions of the open finding
+            got_ids, want_ids = _ids_by_position(impl["res"]), _ids_by_position(want)
+            if got_ids != want_ids and [sorted(c) for c in got_ids] == [sorted(c) for c in want_ids]:
+                vs.append(dict(clause="concat_order", entry=entry, causes=[],
+                               msg=f"concatenating {[obj_str(l) for l in leaves]} ({case['how']}) returned the observations in the order {got_ids}; "
+                                   f"the pieces in order are {want_ids}"))
     elif kind == "fc":
         if impl.get("select_err"):
             return [dict(clause="select_content", entry="__getitem__", causes=["raises_" + impl["select_err"]],
